@@ -6,6 +6,7 @@ import (
 	"encoding/json"
 	"flag"
 	"fmt"
+	"math"
 	"os"
 	"path/filepath"
 	"sort"
@@ -84,11 +85,18 @@ func cmdCheck(args []string) int {
 		exp[*prop] = map[string]float64{}
 		for _, r := range res.Obls {
 			if r.Status == "proved" {
-				mx := 0.0
+				// baseline: the slowest winning query; negative when some site needed the full (unsliced) context
+				mx, full := 0.001, false
 				for _, v := range r.verdicts {
-					if v.Secs > mx {
-						mx = v.Secs
+					if v.OwnSecs > mx {
+						mx = v.OwnSecs
 					}
+					if v.FullCtx {
+						full = true
+					}
+				}
+				if full {
+					mx = -mx
 				}
 				exp[*prop][r.Name] = round3(mx)
 			}
@@ -152,15 +160,16 @@ func runProperty(repo, verif, prop string, cfg *PropCfg, tier string, overlay ma
 		if overlay != nil {
 			// selftest: short timeouts
 			if b, ok := exp[prop][o.Name()]; ok {
-				return maxInt(4, int(b*20)+1)
+				return minInt(40, maxInt(4, int(math.Abs(b)*20)+1))
 			}
 			return 6
 		}
 		if b, ok := exp[prop][o.Name()]; ok {
-			return maxInt(6, int(b*50)+1)
+			return minInt(150, maxInt(6, int(math.Abs(b)*50)+1))
 		}
 		return timeout
 	}
+	needsFull := func(o *Obl) bool { return exp[prop][o.Name()] < 0 }
 	hasProp := func(ps []string) bool {
 		for _, p := range ps {
 			if p == prop {
@@ -266,18 +275,27 @@ func runProperty(repo, verif, prop string, cfg *PropCfg, tier string, overlay ma
 		j := j
 		fns = append(fns, func() {
 			// sliced query first (cone of influence; dropping hypotheses is sound), the full context as fallback
-			if len(j.sliced) < len(j.script)*9/10 {
-				v := Discharge(j.o, j.sliced, work, timeoutFor(j.o), all)
+			if len(j.sliced) < len(j.script)*9/10 && !needsFull(j.o) {
+				st := timeoutFor(j.o)
+				if _, known := exp[prop][j.o.Name()]; !known {
+					st = minInt(st, 8)
+				}
+				v := Discharge(j.o, j.sliced, work, st, all)
+				v.OwnSecs = v.Secs
 				if v.Status == "proved" {
 					j.v = v
 					return
 				}
 				full := Discharge(j.o, j.script, work, timeoutFor(j.o), all)
+				full.OwnSecs = full.Secs
+				full.FullCtx = true
 				full.Secs += v.Secs
 				j.v = full
 				return
 			}
 			j.v = Discharge(j.o, j.script, work, timeoutFor(j.o), all)
+			j.v.OwnSecs = j.v.Secs
+			j.v.FullCtx = len(j.sliced) < len(j.script)*9/10
 		})
 	}
 	for _, j := range covers {
@@ -370,6 +388,13 @@ func runProperty(repo, verif, prop string, cfg *PropCfg, tier string, overlay ma
 		}
 	}
 	return res
+}
+
+func minInt(a, b int) int {
+	if a < b {
+		return a
+	}
+	return b
 }
 
 func maxInt(a, b int) int {
